@@ -132,6 +132,9 @@ type Solver struct {
 
 func (s *Solver) solveAll(obs []*Obligation) {
 	os.MkdirAll(s.dir, 0o755)
+	if len(obs) > 0 {
+		obs[0].fc.u.closeTypeIDs() // no type id is allocated once the workers run
+	}
 	var wg sync.WaitGroup
 	ch := make(chan *Obligation)
 	for i := 0; i < s.workers; i++ {
@@ -291,11 +294,17 @@ func (fc *FuncCtx) typeFacts() string {
 	_, hasKind := fc.d.decl["tid_kind"]
 	_, hasMap := fc.d.decl["is_map_type"]
 	_, hasCmp := fc.d.decl["known_comparable"]
+	_, hasRKind := fc.d.decl["tid_rkind"]
+	_, hasKey := fc.d.decl["tid_key"]
+	_, hasElem := fc.d.decl["tid_elem"]
 	ids := make([]int, 0, len(u.typeByID))
 	for id := range u.typeByID {
 		ids = append(ids, id)
 	}
 	sort.Ints(ids)
+	if hasKind {
+		sb.WriteString("(assert (= (tid_kind 0) 0))\n")
+	}
 	for _, id := range ids {
 		t := u.typeByID[id]
 		k := map[string]int{"bool": 1, "str": 2, "int": 3, "f64": 4, "ref": 5, "fn": 6, "oth": 7}[fc.anyKind(t)]
@@ -308,6 +317,26 @@ func (fc *FuncCtx) typeFacts() string {
 		}
 		if hasKind {
 			fmt.Fprintf(&sb, "(assert (= (tid_kind %d) %d))\n", id, k)
+		}
+		if hasRKind {
+			fmt.Fprintf(&sb, "(assert (= (tid_rkind %d) %d))\n", id, reflectKindOf(t))
+		}
+		if hasKey {
+			if mt, ok := t.Underlying().(*types.Map); ok {
+				fmt.Fprintf(&sb, "(assert (= (tid_key %d) %d))\n", id, u.typeID(mt.Key()))
+			}
+		}
+		if hasElem {
+			switch ut := t.Underlying().(type) {
+			case *types.Map:
+				fmt.Fprintf(&sb, "(assert (= (tid_elem %d) %d))\n", id, u.typeID(ut.Elem()))
+			case *types.Slice:
+				fmt.Fprintf(&sb, "(assert (= (tid_elem %d) %d))\n", id, u.typeID(ut.Elem()))
+			case *types.Array:
+				fmt.Fprintf(&sb, "(assert (= (tid_elem %d) %d))\n", id, u.typeID(ut.Elem()))
+			case *types.Pointer:
+				fmt.Fprintf(&sb, "(assert (= (tid_elem %d) %d))\n", id, u.typeID(ut.Elem()))
+			}
 		}
 		if hasMap {
 			_, isMap := t.Underlying().(*types.Map)
@@ -327,22 +356,47 @@ func (fc *FuncCtx) typeFacts() string {
 }
 
 
-// sharesSymbol: some sf_ symbol of the axiom occurs in the text.
+// sharesSymbol: some spec-function (sf_), struct-field (fld_) or package-variable (global_)
+// symbol of the axiom occurs in the text.
 func sharesSymbol(axiom, text string) bool {
-	i := 0
-	for {
-		j := strings.Index(axiom[i:], "sf_")
-		if j < 0 {
-			return false
+	for _, pre := range []string{"sf_", "fld_", "global_"} {
+		i := 0
+		for {
+			j := strings.Index(axiom[i:], pre)
+			if j < 0 {
+				break
+			}
+			j += i
+			k := j
+			for k < len(axiom) && (axiom[k] == '_' || axiom[k] == '.' || axiom[k] >= 'a' && axiom[k] <= 'z' || axiom[k] >= 'A' && axiom[k] <= 'Z' || axiom[k] >= '0' && axiom[k] <= '9') {
+				k++
+			}
+			if strings.Contains(text, axiom[j:k]) {
+				return true
+			}
+			i = k
 		}
-		j += i
-		k := j
-		for k < len(axiom) && (axiom[k] == '_' || axiom[k] >= 'a' && axiom[k] <= 'z' || axiom[k] >= 'A' && axiom[k] <= 'Z' || axiom[k] >= '0' && axiom[k] <= '9') {
-			k++
+	}
+	return false
+}
+
+// closeTypeIDs gives key and element types of every known composite type an id of their own.
+func (u *Universe) closeTypeIDs() {
+	for changed := true; changed; {
+		n := len(u.typeByID)
+		for id := 1; id <= n; id++ {
+			switch ut := u.typeByID[id].Underlying().(type) {
+			case *types.Map:
+				u.typeID(ut.Key())
+				u.typeID(ut.Elem())
+			case *types.Slice:
+				u.typeID(ut.Elem())
+			case *types.Array:
+				u.typeID(ut.Elem())
+			case *types.Pointer:
+				u.typeID(ut.Elem())
+			}
 		}
-		if strings.Contains(text, axiom[j:k]) {
-			return true
-		}
-		i = k
+		changed = len(u.typeByID) != n
 	}
 }
